@@ -1593,10 +1593,10 @@ _g_ir_node_build_typelib (GIrNode         *node,
 	blob->writable = field->writable;
 	blob->reserved = 0;
 	blob->bits = 0;
-	if (field->offset >= 0)
+	if (field->offset >= 0 && field->offset < 0xFFFF)
 	  blob->struct_offset = field->offset;
 	else
-	  blob->struct_offset = 0xFFFF; /* mark as unknown */
+	  blob->struct_offset = 0xFFFF; /* mark as unknown (or not representable) */
 
         if (field->callback)
           {
